@@ -103,6 +103,20 @@ VH_OP(det_env) {
   return s;
 }
 
+// det_control -> positive control of the perturbation machinery: a value computed from UNINITIALISED heap memory
+//   and from an object ADDRESS, i.e. exactly what a deterministic codec must never print. The check requires that
+//   this line differs between environments (else the perturbation is ineffective) and that valgrind stops on it.
+VH_OP(det_control) {
+  (void)a;
+  volatile unsigned char *p = static_cast<unsigned char *>(malloc(600));
+  unsigned sum = 0;
+  for (int i = 0; i < 600; ++i) sum = sum * 31u + p[i];
+  std::string r = (sum % 7u == 3u) ? "u=a" : "u=b";  // branch on uninitialised data
+  r += std::to_string(sum) + " addr=" + std::to_string((reinterpret_cast<uintptr_t>(p) >> 12) & 0xfffff);
+  free(const_cast<unsigned char *>(p));
+  return r;
+}
+
 // ---------------------------------------------------------------------------------------------
 namespace {
 
